@@ -75,6 +75,9 @@ pub struct Stage {
     /// surplus positional arguments after <logic> [data] (a usage error: only "ends with an exit status,
     /// prints no result" is judged)
     pub extra_args: Vec<String>,
+    /// fd 1 is a terminal (the slave of a pseudo-terminal in raw mode), and so is fd 0 when the data is
+    /// an argument: what the process sees when a person types the command (`isatty` is true)
+    pub tty: bool,
 }
 
 #[derive(Clone, Debug)]
@@ -110,6 +113,7 @@ impl Stage {
             "eof_at": self.eof_at,
             "pipes": self.pipes,
             "extra_args": self.extra_args,
+            "tty": self.tty,
         })
     }
     fn from_json(v: &Value) -> Option<Stage> {
@@ -130,6 +134,7 @@ impl Stage {
             eof_at: v.get("eof_at").and_then(|e| e.as_u64()).map(|e| e as usize),
             pipes: v.get("pipes").and_then(|e| e.as_bool()).unwrap_or(false),
             extra_args: v.get("extra_args").and_then(|e| e.as_array()).map(|a| a.iter().filter_map(|x| x.as_str().map(String::from)).collect()).unwrap_or_default(),
+            tty: v.get("tty").and_then(|e| e.as_bool()).unwrap_or(false),
         })
     }
 }
@@ -324,7 +329,9 @@ fn gen_stage(rng: &mut Rng, corpus: &Corpus, second: bool) -> Stage {
             extra_args.push((*rng.pick(&["null", "{}", "", "'", "-", "extra", "é", "[1,2]", " "])).to_string());
         }
     }
-    Stage { rule_text, data_text, form, sep, read, flips, w1, w2, ambient, eof_at: None, pipes, extra_args }
+    // an interactive invocation: small texts, terminal on fd 1 (and on fd 0 when nothing is read from it)
+    let tty = !pipes && data_text.len() < 1500 && rule_text.len() < 600 && rng.chance(1, 6);
+    Stage { rule_text, data_text, form, sep, read, flips, w1, w2, ambient, eof_at: None, pipes, extra_args, tty }
 }
 
 pub fn gen_case(seed: u64, profile: &str, corpus: &Corpus) -> Case {
@@ -389,6 +396,37 @@ fn memfile(name: &str, content: &[u8]) -> File {
     f
 }
 
+/// A pseudo-terminal pair, the slave in raw mode (no output post-processing: the bytes the process
+/// writes are the bytes read from the master). None if the system has no pty to give.
+fn open_pty() -> Option<(File, File)> {
+    unsafe {
+        let m = libc::posix_openpt(libc::O_RDWR | libc::O_NOCTTY | libc::O_CLOEXEC);
+        if m < 0 {
+            return None;
+        }
+        if libc::grantpt(m) != 0 || libc::unlockpt(m) != 0 {
+            libc::close(m);
+            return None;
+        }
+        let mut name = [0 as libc::c_char; 128];
+        if libc::ptsname_r(m, name.as_mut_ptr(), name.len()) != 0 {
+            libc::close(m);
+            return None;
+        }
+        let sfd = libc::open(name.as_ptr(), libc::O_RDWR | libc::O_NOCTTY | libc::O_CLOEXEC);
+        if sfd < 0 {
+            libc::close(m);
+            return None;
+        }
+        let mut t: libc::termios = std::mem::zeroed();
+        if libc::tcgetattr(sfd, &mut t) == 0 {
+            libc::cfmakeraw(&mut t);
+            libc::tcsetattr(sfd, libc::TCSANOW, &t);
+        }
+        Some((File::from_raw_fd(m), File::from_raw_fd(sfd)))
+    }
+}
+
 pub fn budget_for(stage: &Stage, expected_out: usize) -> u64 {
     4 * (stage.data_text.len() as u64 + expected_out as u64) + (stage.read.len() + stage.w1.len() + stage.w2.len()) as u64 + 64
 }
@@ -398,7 +436,20 @@ pub fn run_stage(env: &Env, profile: &str, stage: &Stage, budget: u64) -> StageR
     let stdin_content: &[u8] = if stage.form == Form::Arg { b"" } else { &stage.data_text };
     let use_pipes = stage.pipes && stdin_content.len() < 400_000;
     let mut out_read_end: Option<File> = None;
-    let (fin, fout) = if use_pipes {
+    let mut tty_master: Option<File> = None;
+    let mut tty_in_master: Option<File> = None;
+    let ptys = if stage.tty && !use_pipes { open_pty().map(|o| (o, if stage.form == Form::Arg { open_pty() } else { None })) } else { None };
+    let (fin, fout) = if let Some(((m_out, s_out), pin)) = ptys {
+        tty_master = Some(m_out);
+        let fin = match pin {
+            Some((m_in, s_in)) => {
+                tty_in_master = Some(m_in);
+                s_in
+            }
+            None => memfile("e2-stdin", stdin_content),
+        };
+        (fin, s_out)
+    } else if use_pipes {
         // stdin: a pipe filled with the whole content whose write end is already closed (the producer
         // has finished); stdout: a pipe large enough never to block, drained after the process exits
         let mk = |cap: usize| -> (File, File) {
@@ -475,6 +526,23 @@ pub fn run_stage(env: &Env, profile: &str, stage: &Stage, budget: u64) -> StageR
     cmd.stdout(Stdio::from(fout.try_clone().unwrap()));
     cmd.stderr(Stdio::from(ferr.try_clone().unwrap()));
     let mut child = cmd.spawn().expect("spawn jsonlogic");
+    // a terminal's buffer is small: drain the master while the process runs
+    let tty_reader = tty_master.take().map(|mut m| {
+        std::thread::spawn(move || {
+            use std::io::Read;
+            let mut buf = Vec::new();
+            let mut chunk = [0u8; 4096];
+            loop {
+                match m.read(&mut chunk) {
+                    Ok(0) => break,
+                    Ok(n) => buf.extend_from_slice(&chunk[..n]),
+                    Err(e) if e.kind() == std::io::ErrorKind::Interrupted => continue,
+                    Err(_) => break, // EIO: every slave descriptor is closed
+                }
+            }
+            buf
+        })
+    });
     // wall-clock backstop (a real clock, used only to turn a CPU-bound hang into an answer)
     let pid = child.id() as i32;
     let pidfd = unsafe { libc::syscall(libc::SYS_pidfd_open, pid, 0) } as i32;
@@ -494,7 +562,12 @@ pub fn run_stage(env: &Env, profile: &str, stage: &Stage, budget: u64) -> StageR
         unsafe { libc::close(pidfd) };
     }
     let status = child.wait().expect("wait");
-    let stdout = match out_read_end {
+    let stdout = if let Some(h) = tty_reader {
+        drop(cmd); // the Command and `fout` hold slave descriptors: the master reads EIO once all are closed
+        drop(fout);
+        drop(tty_in_master.take());
+        h.join().unwrap_or_default()
+    } else { match out_read_end {
         Some(mut r) => {
             use std::io::Read;
             drop(cmd); // the Command holds duplicates of the write end
@@ -506,7 +579,7 @@ pub fn run_stage(env: &Env, profile: &str, stage: &Stage, budget: u64) -> StageR
             buf
         }
         None => oracle::read_fd_all(fout.as_raw_fd()),
-    };
+    } };
     let stderr = oracle::read_fd_all(ferr.as_raw_fd());
     let trace_raw = String::from_utf8_lossy(&oracle::read_fd_all(trace_fd)).into_owned();
     StageResult { stdout, stderr, code: status.code(), signal: status.signal(), timed_out, trace: parse_trace(&trace_raw), trace_raw }
@@ -813,6 +886,12 @@ fn tally(stage: &Stage, res: &StageResult, expect: &Expect, st: &mut CaseStats) 
     if stage.pipes {
         bump(&mut st.probes, "stdin-and-stdout-are-real-pipes", 1);
     }
+    if stage.tty {
+        bump(&mut st.probes, "stdout-is-a-terminal", 1);
+        if stage.form == Form::Arg {
+            bump(&mut st.probes, "stdin-is-an-idle-terminal", 1);
+        }
+    }
     if !stage.extra_args.is_empty() {
         bump(&mut st.probes, "surplus-positional-arguments", 1);
     }
@@ -946,6 +1025,7 @@ pub fn sweep_case(env: &Env, case: &Case, oracle: &mut Oracle) -> (Vec<(Case, Vi
     base.ambient = Ambient::default();
     base.eof_at = None;
     base.pipes = false;
+    base.tty = false;
     base.extra_args.clear();
     let len = base.data_text.len();
     let mut variants: Vec<Stage> = Vec::new();
